@@ -1,11 +1,30 @@
 package loader
 
-import "github.com/jsightapi/jsight-schema-go-library/notations/jschema/internal/schema"
+import (
+	"sort"
 
+	"github.com/jsightapi/jsight-schema-go-library/notations/jschema/internal/schema"
+)
+
+// AddUnnamedTypes copies the types known to the added types into the root schema.
+//
+// In a fixed order: two added types may bring along a type of the same name, and
+// which of them stays must not depend on Go's random map iteration order.
 func AddUnnamedTypes(rootSchema *schema.Schema) {
-	for _, typ := range rootSchema.TypesList() {
-		for unnamed, unnamedTyp := range typ.Schema().TypesList() {
-			rootSchema.AddType(unnamed, unnamedTyp)
+	for _, name := range sortedTypeNames(rootSchema.TypesList()) {
+		typ := rootSchema.TypesList()[name]
+		inner := typ.Schema().TypesList()
+		for _, unnamed := range sortedTypeNames(inner) {
+			rootSchema.AddType(unnamed, inner[unnamed])
 		}
 	}
+}
+
+func sortedTypeNames(tt map[string]schema.Type) []string {
+	names := make([]string, 0, len(tt))
+	for name := range tt {
+		names = append(names, name)
+	}
+	sort.Strings(names)
+	return names
 }
